@@ -56,7 +56,7 @@ pub fn generate(prop: &str, tier: &str, seed: u64, outdir: &str) {
         "C09" => gen_c09(&mut out, &mut rng, thorough),
         "C02" => gen_c02(&mut out, &mut rng, thorough),
         "C15" => {
-            let scripts: Vec<usize> = if thorough { (0..crate::faults::NUM_SCRIPTS).collect() } else { vec![0, 1, 2, 4, 5, 6, 7, 8] };
+            let scripts: Vec<usize> = if thorough { (0..crate::faults::NUM_SCRIPTS).collect() } else { vec![0, 1, 2, 4, 5, 6, 7, 8, 9] };
             for n in scripts {
                 for kind in ["write", "read", "seek"] {
                     for mode in ["transient", "persistent"] {
@@ -123,6 +123,13 @@ fn gen_c17(out: &mut Out, rng: &mut Rng, thorough: bool) {
         let codes: Vec<String> = (0..256u32).map(|k| (chunk * 256 + k).to_string()).collect();
         out.req("summary_langs", format!("sum_set langs {}", codes.join(",")));
         out.req("snapshot", "snapshot".into());
+        if chunk % 8 == 3 {
+            // architecture and languages share one stored property: touching one keeps the other
+            out.req("summary_arch", format!("sum_set arch {}", hex_of_str(*rng.pick(&["x64", "Intel", "Arm64", ""]))));
+            out.req("snapshot", "snapshot".into());
+            out.req("summary_arch", "sum_clear arch".into());
+            out.req("snapshot", "snapshot".into());
+        }
         if chunk % 32 == 31 {
             out.req("reopen", format!("reopen {}", crate::hist::CLOSE_MODES[(chunk as usize / 32) % 3]));
             out.req("snapshot", "snapshot".into());
@@ -292,6 +299,14 @@ fn gen_c18(out: &mut Out, rng: &mut Rng, thorough: bool) {
                 let nanos = ns.rem_euclid(1_000_000_000);
                 out.req("save_reopen_text", format!("ts_save {secs} {nanos} {page} {}", hex_of_str(x)));
             }
+        }
+    }
+    // ... after texts with NUL characters inside (stored length and terminator must agree)
+    for x in ["Jane\u{0}Doe", "\u{0}Jane Doe", "\u{0}\u{0}\u{0}\u{0}", "Acme\u{0}Installer\u{0}Works", "Jane Doe\u{0}", "\u{0}"] {
+        for page in ["Utf8", "Windows1252", "Windows932"] {
+            let tick = rng.next() as i128;
+            let ns = (tick - EPOCH_TICKS) * 100 + rng.below(100) as i128;
+            out.req("save_reopen_nul", format!("ts_save {} {} {page} {}", ns.div_euclid(1_000_000_000), ns.rem_euclid(1_000_000_000), hex_of_str(x)));
         }
     }
     // ... stored at every 4-byte-aligned offset around the 8 KiB and 16 KiB marks of the summary
@@ -473,6 +488,7 @@ pub fn c19_leaves() -> Vec<E> {
     vec![
         E::Col("a".into()), E::Col("b".into()), E::Col("T.c".into()),
         E::Lit(V::Int(5)), E::Lit(V::Int(-3)), E::Lit(V::Str("x".into())), E::Lit(V::Null),
+        E::Lit(V::Str("\u{1f600}\u{e9}".into())),
     ]
 }
 
@@ -550,7 +566,9 @@ fn gen_c19(out: &mut Out, rng: &mut Rng, thorough: bool) {
     }
     let tables = ["Foo", "Bar", "Baz9"];
     let nq = if thorough { 200_000 } else { 12_000 };
-    let lits = [V::Null, V::Int(0), V::Int(-7), V::Int(2147483647), V::Str("x".into()), V::Str("two words".into()), V::Str(String::new())];
+    let lits = [V::Null, V::Int(0), V::Int(-7), V::Int(2147483647), V::Str("x".into()), V::Str("two words".into()), V::Str(String::new()),
+        // text beyond ASCII, in and above the basic plane: a printed literal reads back as the same text
+        V::Str("caf\u{e9}".into()), V::Str("\u{65e5}\u{672c}".into()), V::Str("\u{1f600}".into()), V::Str("a\u{1d11e}b\u{10348}".into())];
     for _ in 0..nq {
         match rng.below(6) {
             0 | 1 | 2 => {
@@ -1356,6 +1374,27 @@ fn gen_hist_prop(prop: &str, out: &mut Out, rng: &mut Rng, thorough: bool) {
             gen_catalog_edits_directed(out, rng, if thorough { 200 } else { 16 });
             gen_signed_rejected_directed(out, rng, if thorough { 120 } else { 12 });
             gen_limits_repeated_values(out);
+            // a database without a `_Validation` table (fix D24)
+            for (bi, b) in c09_bases().iter().enumerate().skip(1) {
+                for order in 0..2 {
+                    out.req("load", format!("load {} {}", bi % 3, entries_tok(b)));
+                    out.req("snapshot", "snapshot".into());
+                    let mk = format!("create_table {} {}:i16:K:-:-:-:-", hex_of_str("Fresh"), hex_of_str("K"));
+                    let dr = format!("drop_table {}", hex_of_str("T"));
+                    let (a, c) = if order == 0 { (mk.clone(), dr.clone()) } else { (dr, mk) };
+                    out.req("no_validation", a);
+                    out.req("snapshot", "snapshot".into());
+                    out.req("no_validation", c);
+                    out.req("snapshot", "snapshot".into());
+                    out.req("reopen", format!("reopen {}", crate::hist::CLOSE_MODES[(bi + order) % 3]));
+                    out.req("snapshot", "snapshot".into());
+                }
+            }
+            out.req("catalog_hand_limit", "@catalog_hand_limit _Validation 1".into());
+            if thorough {
+                out.req("catalog_hand_limit", "@catalog_hand_limit _Validation 3".into());
+                out.req("catalog_hand_limit", "@catalog_hand_limit _Columns 2".into());
+            }
             // a refused insert into a table that is exactly full, or one row short of it
             out.req("rows_limit", "@rows_limit 65536 1".into());
             out.req("rows_limit", "@rows_limit 65535 2 1".into());
@@ -1546,6 +1585,9 @@ fn gen_c10(out: &mut Out, rng: &mut Rng, thorough: bool) {
         v.push("sum_clear langs".into());
         v.push("sum_set cp Windows1252".into());
         v.push("sum_set cp Utf8".into());
+        // (the database code page is another setting altogether)
+        v.push("set_db_cp Windows1252".into());
+        v.push(format!("sum_set subject {}", hex_of_str("Snowman \u{2603}")));
         v.push("sum_set ctime 1489862796.123456700".into());
         v.push("sum_set uuid 34ab5c539b304e14aef02c1c7ba826c0".into());
         v
@@ -1815,6 +1857,39 @@ fn gen_c20(out: &mut Out, rng: &mut Rng, thorough: bool) {
         out.req("snapshot", "snapshot".into());
     }
     gen_limits_repeated_values(out);
+    // a table with more columns than create_table admits (reached by adding catalog rows by hand,
+    // as a file from another writer might have): every statement still works on it
+    {
+        let cols: Vec<String> = (0..32).map(|j| {
+            let mut c = ColDef::new(&format!("C{:02}", j + 1), if j == 0 { CT::I32 } else { CT::I16 });
+            c.key = j == 0;
+            c.nullable = j != 0;
+            c.tok()
+        }).collect();
+        let wide = hex_of_str("Wide");
+        out.req("new", "new 0".into());
+        out.req("create_table", format!("create_table {wide} {}", cols.join(" ")));
+        for extra in [33, 34] {
+            out.req("catalog_edit", format!("insert {} 1 4 S{wide} I{extra} S{} I5378", hex_of_str("_Columns"), hex_of_str(&format!("C{extra}"))));
+            out.req("catalog_edit", format!("insert {} 1 10 S{wide} S{} S{} N N N N N N N", hex_of_str("_Validation"), hex_of_str(&format!("C{extra}")), hex_of_str("Y")));
+        }
+        out.req("reopen", "reopen into_inner".into());
+        out.req("snapshot", "snapshot".into());
+        let vals: Vec<String> = (0..34).map(|j| if j == 0 { "I200".to_string() } else { format!("I{}", j) }).collect();
+        out.req("wide_insert", format!("insert {wide} 1 34 {}", vals.join(" ")));
+        out.req("wide_update", format!("update {wide} 1 {} I-2 -", hex_of_str("C02")));
+        out.req("wide_update", format!("update {wide} 1 {} I-33 eq C{} I200", hex_of_str("C33"), hex_of_str("C01")));
+        out.req("wide_update", format!("update {wide} 2 {} I201 {} I-34 -", hex_of_str("C01"), hex_of_str("C34")));
+        out.req("snapshot", "snapshot".into());
+        out.req("wide_delete", format!("delete {wide} eq C{} I-33", hex_of_str("C33")));
+        out.req("snapshot", "snapshot".into());
+        out.req("reopen", "reopen flush".into());
+        out.req("snapshot", "snapshot".into());
+        out.req("drop_table", format!("drop_table {wide}"));
+        out.req("snapshot", "snapshot".into());
+    }
+    out.req("catalog_hand_limit", "@catalog_hand_limit _Validation 2".into());
+    out.req("catalog_hand_limit", "@catalog_hand_limit _Columns 1".into());
     // names: table names around 31/32/33 and 60/61 characters; stream names around the limit
     out.req("new", "new 0".into());
     for len in [30usize, 31, 32, 33, 59, 60, 61, 62, 63] {
@@ -1931,6 +2006,11 @@ fn gen_c16(out: &mut Out, rng: &mut Rng, thorough: bool) {
                     out.req("update", format!("update {e} 1 {} N -", hex_of_str("S")));
                 }
             }
+        }
+        if rng.chance(1, 4) {
+            // a `_Validation` row about a table that does not exist (left by a hand edit): a reader
+            // must leave it alone like everything else
+            out.req("catalog_edit", format!("insert {} 1 10 S{} S{} S{} N N N N N N N", hex_of_str("_Validation"), hex_of_str("Planned"), hex_of_str("K"), hex_of_str("N")));
         }
         if rng.chance(1, 2) {
             // database code page and summary code page are independent: leave them different
@@ -2477,6 +2557,34 @@ fn shuffled(rng: &mut Rng, n: usize) -> Vec<usize> {
 fn gen_c02(out: &mut Out, rng: &mut Rng, thorough: bool) {
     use crate::decode::*;
     use crate::exec::ALL_CP;
+    // the database code page is changed on a file whose summary uses the same page and holds text
+    // the new page lacks: the summary (its own code page, its strings) is none of that call's
+    // business (the tables hold ASCII text only, so nothing of theirs is lost either)
+    for (ci, (cp_id, text, target)) in [(1252u32, "Ann\u{e9}", "Windows1251"), (65001, "\u{65e5}\u{672c}", "Windows1252"), (1251, "\u{416}\u{43f}", "Windows1252"), (65001, "Ann\u{e9}", "Windows932")].iter().enumerate() {
+        let mut k = ColDef::new("K", CT::I16);
+        k.key = true;
+        let mut v = ColDef::new("V", CT::Str(0));
+        v.nullable = true;
+        let tables = vec![EncTable { name: "Plain".into(), cols: vec![k, v], rows: vec![vec![V::Int(1), V::Str("ascii only".into())], vec![V::Int(2), V::Null]] }];
+        let layout = EncLayout { long_refs: false, cp_id: *cp_id, filler: vec![], overcount: 0, duplicate: false, with_validation: ci % 2 == 0, reverse_rows: false, int16_size: 2 };
+        let mut entries = encode_db(&layout, &tables);
+        let enc: Vec<u8> = match *cp_id {
+            65001 => text.as_bytes().to_vec(),
+            1252 => text.chars().map(|c| c as u32 as u8).collect(),
+            _ => text.chars().map(|c| (c as u32 - 0x410 + 0xc0) as u8).collect(),
+        };
+        let props: Vec<(u32, PVal)> = vec![(1, PVal::I2(*cp_id as u16 as i16)), (2, PVal::Str(b"Installation Database".to_vec())), (4, PVal::Str(enc))];
+        let pl = PropLayout { version: 0, os: 2, os_version: 10, section_gap: 0, table_order: vec![0, 1, 2], value_order: vec![0, 1, 2], gaps: vec![0, 0, 0] };
+        entries.push(("\u{5}SummaryInformation".to_string(), write_propset(&props, &pl)));
+        out.req("load", format!("load {} {}", ci % 3, entries_tok(&entries)));
+        out.req("snapshot", "snapshot".into());
+        out.req("set_db_cp", format!("set_db_cp {target}"));
+        out.req("snapshot", "snapshot".into());
+        out.req("insert", format!("insert {} 1 2 I3 S{}", hex_of_str("Plain"), hex_of_str("more ascii")));
+        out.req("snapshot", "snapshot".into());
+        out.req("reopen", format!("reopen {}", crate::hist::CLOSE_MODES[ci % 3]));
+        out.req("snapshot", "snapshot".into());
+    }
     let n = if thorough { 10_000 } else { 350 };
     for case in 0..n {
         // code page: every supported id including 0; non-ASCII text only under UTF-8 / id 0
@@ -2611,6 +2719,16 @@ fn gen_c02(out: &mut Out, rng: &mut Rng, thorough: bool) {
         out.req("snapshot", "snapshot".into());
         if case % 2 == 0 {
             out.req("ffi", "@ffi_check".into());
+        }
+        if case % 5 == 2 {
+            // table creation and removal on a database that may have no `_Validation` table
+            // (fix D24): refused with nothing changed / carried out completely
+            out.req("create_table", format!("create_table {} {}:i16:K:-:-:-:- {}:s8:N:-:-:-:-", hex_of_str("Made"), hex_of_str("K"), hex_of_str("V")));
+            out.req("snapshot", "snapshot".into());
+            out.req("drop_table", format!("drop_table {}", hex_of_str("Tab0")));
+            out.req("snapshot", "snapshot".into());
+            out.req("reopen", format!("reopen {}", rng.pick(&crate::hist::CLOSE_MODES)));
+            out.req("snapshot", "snapshot".into());
         }
         // read-only close must not disturb anything; then edits through the API
         if case % 3 == 0 {
